@@ -16,6 +16,7 @@ LEVEL_TEXT = (
     'AS_TRANS/AS4_PATH/AS4_AGGREGATOR as RFC 6793 OLD speakers produce them, End-of-RIBs in both forms), delivered segmented and '
     'interleaved by the scheduler; oracle: every JSON API event, in order, and the final Adj-RIB-In equal what refbgp.decode_update / '
     'PeerTable extract from the same bytes.'
+    ' Scripts repeat an UPDATE back to back.'
 )
 LEVEL_NOTE = 'trusts: the reference decoder (refbgp) and the JSON-to-canonical mapping in this file; session-destroying faults are off'
 DESIGN_REF = 'DESIGN.md section 5, C02'
